@@ -12,7 +12,7 @@ from vf.simk.world import World, FD
 ID = "C14"
 LEVEL = "exploration"
 ALT_MOUNT = True          # run once more with procfs mounted at /hostproc (vf/child.py)
-KINDS = ["reg", "del", "delx", "litdel", "sock", "pipe", "anon", "anon2", "chr", "rel", "dir"]
+KINDS = ["reg", "del", "delx", "litdel", "sock", "pipe", "anon", "anon2", "chr", "rel", "dir", "nulreg", "delnul"]
 FLAGBITS = [os.O_APPEND, os.O_CREAT, os.O_TRUNC, os.O_CLOEXEC, os.O_NONBLOCK, 0o100000]
 POS = [0, 1, 2 ** 31 - 1, 2 ** 31, 2 ** 32, 2 ** 63 - 1]
 MODES5 = {"r", "w", "a", "r+", "a+"}
@@ -21,6 +21,7 @@ MODES5 = {"r", "w", "a", "r+", "a+"}
 def target(kind, i):
     return {"reg": "/tmp/f%d" % i, "del": "/tmp/gone%d (deleted)" % i, "delx": "/tmp/f%d (deleted)" % i,
             "litdel": "/tmp/lit%d (deleted)" % i, "sock": "socket:[%d]" % (7000 + i), "pipe": "pipe:[%d]" % (8000 + i),
+            "nulreg": "/tmp/f%d\x00 (deleted)" % i, "delnul": "/tmp/gone%d (deleted)\x00new" % i,
             "anon": "anon_inode:[eventpoll]", "anon2": "anon_inode:inotify", "chr": "/dev/null", "rel": "rel/path%d" % i, "dir": "/tmp"}[kind]
 
 
@@ -61,6 +62,13 @@ def ref_open_files(w, table):
         t = target(kind, fd)
         if kind in ("reg", "litdel"):
             must.append((t, fd, pos, ref_mode(flags), flags))
+        elif kind == "nulreg":
+            # the link text carries NUL garbage (psutil issue 717): what precedes the NUL names an existing regular file
+            must.append((t.split("\0")[0], fd, pos, ref_mode(flags), flags))
+        elif kind == "delnul":
+            # marker and NUL garbage together: an unlinked file -- listed under either spelling, or not at all
+            may.append((t.split("\0")[0], fd, pos, ref_mode(flags), flags))
+            may.append((t.split("\0")[0][:-10], fd, pos, ref_mode(flags), flags))
         elif kind == "delx":
             # '/tmp/fN (deleted)' does not exist but '/tmp/fN' does: psutil's documented heuristic reports '/tmp/fN'
             may.append((t[:-10], fd, pos, ref_mode(flags), flags))
@@ -239,7 +247,7 @@ def build_cases(thorough):
         if ex:
             cases.append(("table", {"3": ["reg", 5, 0o100002], "4": ["litdel", 9, 0o102001]}, ex))
     nmax = 5 if thorough else 3
-    kinds = KINDS if thorough else ["reg", "del", "delx", "litdel", "sock", "pipe", "anon2", "chr", "rel", "dir"]
+    kinds = KINDS if thorough else ["reg", "del", "delx", "litdel", "sock", "pipe", "anon2", "chr", "rel", "dir", "nulreg", "delnul"]
     for n in range(0, nmax + 1):
         for combo in itertools.product(kinds, repeat=n):
             cases.append(("table", {str(3 + i): [k, 11 * (i + 1), [0o100000, 0o100001, 0o102002, 0o101][i % 4]] for i, k in enumerate(combo)}))
